@@ -14,6 +14,7 @@ import (
 	"github.com/jackc/pgx/v5/pgtype"
 	wire "github.com/jeroenrinzema/psql-wire"
 	"github.com/jeroenrinzema/psql-wire/pkg/verifshim/vsched"
+	"github.com/jeroenrinzema/psql-wire/pkg/verifshim/vsync"
 	"github.com/lib/pq/oid"
 	"verif/engine/explore"
 	"verif/engine/harness"
@@ -250,6 +251,8 @@ func c15Scenario(spec c15Spec) *Scenario {
 	return &Scenario{Name: spec.name, Property: "C15", Desc: spec.desc, MaxSteps: 20000,
 		New: func() (func(), func(*vsched.Exec) Verdict) {
 			obs := &c15Obs{}
+			vsync.PoolFIFO = false
+			vsync.ResetPools()
 			body := func() { c15Run(spec, "", obs) }
 			judge := func(x *vsched.Exec) Verdict {
 				var v Verdict
